@@ -39,7 +39,7 @@ def dedupe(ctx, traces, out):
     """Runs with identical recorded text are validated once (validation is a function of the text)."""
     # the kind of a failing member's error and error messages are not read by the specification
     # (a failure is a failure): runs that differ only there are validated once, too
-    strip = re.compile(r'"errkind":\[[^\]]*\],?|"spin":\d+,?|"msg":"(?:[^"\\]|\\.)*",?')
+    strip = re.compile(r'"errkind":\[[^\]]*\],?|"spin":\d+,?|"desc":\[[^\]]*\],?|"msg":"(?:[^"\\]|\\.)*",?')
     seen = {}
     uniq = {}
     hdr = None
@@ -79,6 +79,10 @@ def count(ctx, uniq):
             e = json.loads(l)
             op = e['op']
             if op == 'reset':
+                for k, d, o in zip(e['content'], e['desc'], e['out']):
+                    if o == 'ok':
+                        kk = 'succeeding member answers with %s content, %s descriptor' % (k, d)
+                        sit[kk] = sit.get(kk, 0) + mult
                 kinds = [k for k, o in zip(e['errkind'], e['out']) if o == 'fail']
                 for k in kinds:
                     sit['failing member error kind: ' + k] = sit.get('failing member error kind: ' + k, 0) + mult
@@ -158,8 +162,8 @@ def run(ctx):
     allscheds = scheds
     if quick:
         # every schedule in which the caller does not read; of those in which it reads (a piece / to EOF, at every
-        # position between the return and Close) one in four, which ones rotating with the seed; thorough: all
-        scheds = [s for i, s in enumerate(scheds) if not ({'read', 'readpart'} & set(s['acts'])) or (i + ctx.seed) % 4 == 0]
+        # position between the return and Close) one in six, which ones rotating with the seed; thorough: all
+        scheds = [s for i, s in enumerate(scheds) if not ({'read', 'readpart'} & set(s['acts'])) or (i + ctx.seed) % 6 == 0]
     ctx.cov['schedules_replayed'] = len(scheds)
     ctx.log('%d of %d exported schedules replayed' % (len(scheds), nall))
     sd = ctx.sub('sched')
@@ -180,8 +184,8 @@ def run(ctx):
         return s['style'] == 'reader' and not isread(s) and any(
             a[i] in ('rel0', 'rel1') and a[i + 1] == 'cancel' and s['out'][int(a[i][3])] == 'ok' for i in range(len(a) - 1))
     rs = [s for s in allscheds if racy(s)]
-    rs = [rs[(ctx.seed * 7 + k * max(1, len(rs) // 12)) % len(rs)] for k in range(12)] if quick else rs
-    groups.append(('r', rs, 80 if quick else 120, 'race'))
+    rs = [rs[(ctx.seed * 7 + k * max(1, len(rs) // 8)) % len(rs)] for k in range(8)] if quick else rs
+    groups.append(('r', rs, 60 if quick else 120, 'race'))
     traces = []
     nruns = expect = 0
     for name, group, reps, variants in groups:
@@ -208,14 +212,14 @@ def run(ctx):
     ctx.cov['distinct_recorded_runs'] = len(uniq)
     ctx.cov['race_detector'] = not quick
     sit = ctx.cov['situations']
-    for need in tuple('runs of ' + e for e in ('GetBlob', 'GetBlobRange', 'GetManifest', 'ResolveBlob', 'ResolveManifest')) + ('returned ok0', 'returned ok1', 'returned err', 'returned cancelled', 'environment: close', 'environment: cancel', 'reader Close returned its error to the caller', 'reader closed cleanly', 'caller read the reader to EOF before closing', 'caller read a piece of the reader', 'a failing member answered first with its own context.Canceled/DeadlineExceeded', 'quiescence reached'):
+    for need in tuple('runs of ' + e for e in ('GetBlob', 'GetBlobRange', 'GetManifest', 'ResolveBlob', 'ResolveManifest')) + ('returned ok0', 'returned ok1', 'returned err', 'returned cancelled', 'environment: close', 'environment: cancel', 'reader Close returned its error to the caller', 'reader closed cleanly', 'succeeding member answers with empty content, full descriptor', 'succeeding member answers with empty content, bare descriptor', 'succeeding member answers with one content, full descriptor', 'succeeding member answers with four content, bare descriptor', 'caller read the reader to EOF before closing', 'caller read a piece of the reader', 'a failing member answered first with its own context.Canceled/DeadlineExceeded', 'quiescence reached'):
         if not sit.get(need):
             raise vlib.Machinery('the batch never reached the situation %r' % need)
     first = next(iter(uniq)).split('\n')
     ctx.cov['samples'] = [dict(tlc_exported_schedules=scheds[:3]), dict(recorded_run=[json.loads(l) for l in first if '"tau"' not in l])]
     # 4. TLC validates every distinct recorded run against the model
     judge(ctx, [ut], shard_lines=5000 if quick else 8000, label='ociunify concurrent reads vs OciUnifyConc')
-    ctx.assumptions += ['fake members built on ociregistry.Funcs: a call parks on a gate (or on its context), records the context it was given, hands out a close-counting reader whose Close returns a scripted error or nil',
+    ctx.assumptions += ['fake members built on ociregistry.Funcs: a call parks on a gate (or on its context), records the context it was given, answers with 0, 1 or 4 bytes of content under a full or a bare (no digest, no media type) descriptor and hands out a close-counting reader whose Close returns a scripted error or nil',
                         'goroutines still inside ociunify are counted from runtime.Stack (frames or creator in package ociunify) after waiting up to 5 s for them to finish',
                         'each internal step of the model (main, sender) is one channel operation of the code; what lies between sets monotone flags only',
                         'TLC, pcal and the Json/IOUtils community modules']
